@@ -10,7 +10,7 @@ Import ListNotations.
 Section Sampling.
 Context {C T : Type} (SC : Scalar C C) (S : Scalar C T).
 Variable igam_impl : C -> C -> nat -> C -> res C.   (* gamma::inverse_gamma_lr_impl *)
-Variable c_isnan : C -> bool.                        (* f64::is_nan *)
+Variable c_is_value : C -> bool.   (* res.is_finite() && res > 0.0 : the wrapper's test in gamma.rs *)
 
 Notation zero := (s_zero S).
 Notation one := (s_one S).
@@ -122,7 +122,7 @@ Definition compute_l_matrix (x : list T) (sig : list (list Z)) (L : nat) : list 
 (* ---------- Gamma draw ---------- *)
 Definition inverse_gamma_lr (a p : T) (n : nat) (eps : T) : res (option T) :=
   rbind (igam_impl (s_to_c S a) (s_to_c S p) n (s_to_c S eps))
-        (fun r => Ok (if c_isnan r then None else Some (ofc r))).
+        (fun r => Ok (if c_is_value r then Some (ofc r) else None)).
 
 (* ---------- Gaussian vectors ---------- *)
 Definition box_muller (x1 x2 : T) : T * T :=
